@@ -594,6 +594,26 @@ class Walker:
         out = []
         lid = self.site(st, n)
         for s0, dom in self.ev(n.iter, st):
+            if dom[0] in ("tup", "lst") and 0 < len(dom[1]) <= 4 and not n.orelse:
+                # a loop over a short literal sequence is unrolled exactly: no generic iteration, no havoc
+                cur = [s0]
+                for el in dom[1]:
+                    nxt = []
+                    for s in cur:
+                        if s.exit is not None:
+                            nxt.append(s)
+                            continue
+                        for s1 in self.assign(n.target, el, s, n):
+                            for s2 in self.block(n.body, [s1]):
+                                if s2.exit is not None and s2.exit[0] == "continue":
+                                    s2.exit = None
+                                nxt.append(s2)
+                    cur = nxt
+                for s in cur:
+                    if s.exit is not None and s.exit[0] == "break":
+                        s.exit = None
+                    out.append(s)
+                continue
             # (a) zero iterations
             sa = s0.copy()
             sa.conds.append(Cond(("loop0", lid, dom), True, n, sa.frame.func, sa.loops))
@@ -1243,7 +1263,7 @@ class Walker:
         self.emit(st, "new", node, cls=cls.name, args=args, kwargs=kwargs, obj=obj)
         if init is None or cls.is_subclass_of("Exception"):
             return [(st, obj)]
-        if self.inline == "deep" and len(st.stack) < self.max_depth and init.qualname not in self.no_inline:
+        if self.inline == "deep" and len(st.stack) < self.max_depth and init.qualname not in self.no_inline and "__init__" not in self.no_inline:
             res = self._inline(init, cls, obj, args, kwargs, st, node, "__init__")
             return [(s, obj) for s, _ in res]
         bound = self._bind_args(init, args, kwargs, skip_self=True)
